@@ -24,13 +24,20 @@ package implementation
 //@   ensures-local[never-twice] err == nil ==> stg(context).stakeAmt == store(old(stg(context).stakeAmt), deref(id), store(old(stg(context).stakeAmt)[deref(id)], sendBlock.Address, 0))
 //@   modifies sendBlock.Data, MF:common/db.DB.stakeHas, MF:common/db.DB.stakeAmt, MF:common/db.DB.stakeExp
 
+// ABI round trip for the Stake call data (ASSUMED; "Stake" entry of definition.jsonStake: one int64).
+//@ spec abidec_int64(n string, v int) int
+//@ spec abipack_I(n string, a0 int) int
+//@ assume-global[abi-roundtrip-stake] forall n string, a0 int :: -pow2(63) <= a0 && a0 < pow2(63) ==> abidec_int64(n, abipack_I(n, a0)) == a0
+
 // Stake: records an entry under (hash of the send block, sender) holding exactly the received amount; pays nothing.
 //@ func StakeMethod.ReceiveBlock(p, context, sendBlock) -> (descendants, err)
+//@   attr uses abi-roundtrip-stake
 //@   requires p != nil && sendBlock != nil && sendBlock.Amount != nil
 //@   ensures[no-payment] len(descendants) == 0
 //@   ensures[entry-holds-received-amount] err == nil ==> stg(context).stakeAmt == store(old(stg(context).stakeAmt), sendBlock.Hash, store(old(stg(context).stakeAmt)[sendBlock.Hash], sendBlock.Address, val(sendBlock.Amount)))
 //@   ensures[entry-owned-by-sender] err == nil ==> stg(context).stakeHas[sendBlock.Hash][sendBlock.Address]
 //@   ensures[znn-only] err == nil ==> sendBlock.TokenStandard == types.ZnnTokenStandard
+//@   ensures[locked-for-at-least-the-minimum] err == nil && context.now + constants.StakeTimeMaxSec < pow2(63) ==> stg(context).stakeExp[sendBlock.Hash][sendBlock.Address] >= context.now + constants.StakeTimeMinSec
 //@   ensures[nothing-on-error] err != nil ==> stg(context).stakeAmt == old(stg(context).stakeAmt) && stg(context).stakeHas == old(stg(context).stakeHas)
 //@   modifies sendBlock.Data, MF:common/db.DB.stakeHas, MF:common/db.DB.stakeAmt, MF:common/db.DB.stakeExp
 
@@ -69,6 +76,14 @@ package implementation
 //@ spec htlcWellFormed(s db.DB) bool = forall i arr :: s.htlcHas[i] ==> (s.htlcHashType[i] == 0 || s.htlcHashType[i] == 1) && s.htlcLockLen[i] == 32
 //@ spec digestb(ty int, v int, j int) int = ite(ty == 0, crypto.sha3b(v, j), crypto.sha256b(v, j))
 
+// ABI round trip for the Create call data (ASSUMED; justified by the "Create" entry of definition.jsonHtlc: hashLocked,
+// expirationTime, hashType, keyMaxSize, hashLock in this order, decoded into the like-named fields of CreateHtlcParam): what
+// ValidateSendBlock re-packs is what ReceiveBlock unpacks.
+//@ spec abidec_CreateHtlcParam_HashType(n string, v int) int
+//@ spec abidec_CreateHtlcParam_HashLock_len(n string, v int) int
+//@ spec abipack_IIIII(n string, a0 int, a1 int, a2 int, a3 int, a4 int) int
+//@ assume-global[abi-roundtrip-htlc-create] forall n string, a0 int, a1 int, a2 int, a3 int, a4 int :: abidec_CreateHtlcParam_HashType(n, abipack_IIIII(n, a0, a1, a2, a3, a4)) == a2 && abidec_CreateHtlcParam_HashLock_len(n, abipack_IIIII(n, a0, a1, a2, a3, a4)) == blen(a4)
+
 // checkHtlc accepts exactly the two known hash types with a hash lock of the digest size.
 //@ func checkHtlc(param) -> (err)
 //@   ensures[accepts-only-wellformed] err == nil <==> (param.HashType == 0 || param.HashType == 1) && len(param.HashLock) == 32
@@ -77,6 +92,7 @@ package implementation
 // Create: records an entry under the hash of the send block holding exactly the received amount and token, time-locked to
 // the sender; pays nothing; refuses an expiration that is not in the future.
 //@ func CreateHtlcMethod.ReceiveBlock(p, context, sendBlock) -> (descendants, err)
+//@   attr uses abi-roundtrip-htlc-create
 //@   requires p != nil && sendBlock != nil && sendBlock.Amount != nil
 //@   ensures[no-payment] len(descendants) == 0
 //@   ensures[entry-holds-received-amount] err == nil ==> stg(context).htlcAmt == store(old(stg(context).htlcAmt), sendBlock.Hash, val(sendBlock.Amount)) && stg(context).htlcToken == store(old(stg(context).htlcToken), sendBlock.Hash, sendBlock.TokenStandard)
@@ -84,6 +100,7 @@ package implementation
 //@   ensures[expires-in-the-future] err == nil ==> stg(context).htlcExp[sendBlock.Hash] > context.now
 //@   ensures-local[hash-locked-as-requested] err == nil ==> stg(context).htlcHashLocked == store(old(stg(context).htlcHashLocked), sendBlock.Hash, param.HashLocked)
 //@   ensures[nothing-on-error] err != nil ==> stg(context).htlcAmt == old(stg(context).htlcAmt) && stg(context).htlcHas == old(stg(context).htlcHas)
+//@   ensures[keeps-entries-wellformed] old(htlcWellFormed(stg(context))) ==> htlcWellFormed(stg(context))
 //@   modifies sendBlock.Data, MF:common/db.DB.htlc*
 
 // Reclaim: only the time-locked party (the depositor), only once the frontier time has reached the expiration; pays exactly
@@ -231,7 +248,7 @@ package implementation
 // with the frontier time and holds exactly the registration collateral (this is what keeps pillarsWellFormed).
 //@ func checkAndRegisterPillar(context, param, ownerAddress, pillarType) -> (err)
 //@   requires param != nil
-//@   ensures[never-over-an-existing-name] err == nil ==> !old(stg(context).pillarHas)[param.Name]
+//@   ensures[never-over-an-existing-name] err == nil ==> !old(stg(context).pillarHas)[param.Name] && stg(context).pillarHas == store(old(stg(context).pillarHas), param.Name, true)
 //@   ensures[owned-by-registrant] err == nil ==> stg(context).pillarOwner == store(old(stg(context).pillarOwner), param.Name, ownerAddress)
 //@   ensures[holds-the-collateral] err == nil ==> stg(context).pillarAmt == store(old(stg(context).pillarAmt), param.Name, val(constants.PillarStakeAmount)) && stg(context).pillarRevoked == store(old(stg(context).pillarRevoked), param.Name, 0)
 //@   ensures[stamped-now] err == nil ==> stg(context).pillarReg == store(old(stg(context).pillarReg), param.Name, context.now)
